@@ -1,16 +1,25 @@
 #!/usr/bin/env python3
 """Translator of the Sha area (property C17).
 
-Regenerates `lean/Nstd/Generated/Sha256Tables.lean` from the CURRENT sources of the repo
-(`src/Crypto/Sha256.cpp`): the round constants `K`, the initial state written by `reset()`, and
-the side-effect-free macros (`rotrFixed S0 S1 s0 s1 Ch Maj`) as Lean `UInt32` functions, the
-statement macros (`blk0 blk2 R`, with the register macros `a..h` expanded exactly like the
-preprocessor does) as Lean state transformers over the arrays they assign (`T`, `W`).
+Regenerates from the CURRENT sources of the repo (`src/Crypto/Sha256.cpp`, `include/nstd/Crypto/Sha256.hpp`)
 
-The active macro definitions are taken from `g++ -E -dD`, so conditional compilation is resolved by
-the real preprocessor.  A small C-expression translator linearises the bodies.  Anything it cannot
-find or cannot translate faithfully (unknown operator, unsequenced side effects, the unrolled
-variants of the code) is reported as a broken tie: `(False, message)`.
+  lean/Nstd/Generated/Sha256Tables.lean   the build configuration of the sources as they are
+  lean/Nstd/Generated/Sha256U2.lean       the same sources compiled with -D_SHA256_UNROLL2
+
+Each file holds: the round constants `K`, the initial state written by `reset()`, the header constants,
+the side-effect-free macros (`rotrFixed S0 S1 s0 s1 Ch Maj` ...) as Lean `UInt32` functions, the statement
+macros (`blk0 blk2 R RX_8`, the register macros `a..h` expanded exactly like the preprocessor does) as Lean
+state transformers over the record `RS` of the local variables of `Transform`, and the BODY of
+`Sha256::Private::Transform` (declarations, constant-bound `for` loops, assignments, macro statements)
+as Lean definitions `Transform_for<n>_body`, `Transform_for<n>`, `Transform`.
+
+Two views of the translation unit are taken from the real preprocessor, so conditional compilation is
+resolved by g++ and not by this script:
+  g++ -E -dD                      the active macro definitions
+  g++ -E -dD -fdirectives-only    the function bodies with #if/#ifdef resolved and macro calls NOT expanded
+A small C parser (expressions and the statement subset used by the functions) linearises the bodies.
+Anything it cannot find or cannot translate faithfully (unknown operator, unsequenced side effects,
+aliasing macro arguments, non-constant loop bounds, ...) is reported as a broken tie: `(False, message)`.
 """
 import hashlib
 import os
@@ -20,15 +29,22 @@ import sys
 from pathlib import Path
 
 VERIF = Path(__file__).resolve().parents[1]
-OUT = VERIF / "lean" / "Nstd" / "Generated" / "Sha256Tables.lean"
+GEN = VERIF / "lean" / "Nstd" / "Generated"
+OUT = GEN / "Sha256Tables.lean"
+OUT_U2 = GEN / "Sha256U2.lean"
+UNROLL2 = "_SHA256_UNROLL2"
 
 
 class Untranslatable(Exception):
     pass
 
 
-# ---- C expression parser -------------------------------------------------------------------------
-TOK = re.compile(r"\s*(0[xX][0-9a-fA-F]+|\d+|[A-Za-z_]\w*|\+=|>>|<<|[-+&|^~?:=()\[\],;])")
+# ---- C parser ------------------------------------------------------------------------------------
+TOK = re.compile(r"\s*(0[xX][0-9a-fA-F]+|\d+|[A-Za-z_]\w*|<<=|>>=|\+=|-=|&=|\|=|\^=|\+\+|--|->|::|>>|<<|<=|>=|==|!=|&&|\|\||"
+                 r"[-+&|^~?:=()\[\],;<>*{}%/!.])")
+TYPES = {"UInt32": "UInt32", "unsigned": "UInt32", "uint32": "UInt32", "UInt64": "UInt64", "uint64": "UInt64",
+         "Byte": "UInt8", "byte": "UInt8", "usize": "USize", "CSha256": "Sha", "Sha256": "Sha"}
+ASGOPS = ("=", "+=", "-=", "&=", "|=", "^=", "<<=", ">>=")
 
 
 def tokenize(s):
@@ -47,18 +63,19 @@ class Parser:
     def __init__(self, toks):
         self.t, self.p = toks, 0
 
-    def peek(self):
-        return self.t[self.p] if self.p < len(self.t) else None
+    def peek(self, k=0):
+        return self.t[self.p + k] if self.p + k < len(self.t) else None
 
     def eat(self, x=None):
         if self.p >= len(self.t):
-            raise Untranslatable("unexpected end of macro body")
+            raise Untranslatable("unexpected end of input")
         t = self.t[self.p]
         if x is not None and t != x:
             raise Untranslatable(f"expected {x!r}, found {t!r}")
         self.p += 1
         return t
 
+    # -- macro bodies: expressions separated by `;`
     def stmts(self):
         out = [self.assign()]
         while self.peek() == ";":
@@ -70,16 +87,103 @@ class Parser:
             raise Untranslatable(f"trailing token {self.peek()!r}")
         return out
 
+    # -- function bodies
+    def block_items(self):
+        out = []
+        while self.peek() is not None and self.peek() != "}":
+            out.append(self.stmt())
+        return out
+
+    def stmt(self):
+        t = self.peek()
+        if t == "{":
+            self.eat()
+            b = self.block_items()
+            self.eat("}")
+            return ("block", b)
+        if t == ";":
+            self.eat()
+            return ("block", [])
+        if t == "for":
+            self.eat()
+            self.eat("(")
+            init = None if self.peek() == ";" else self.assign()
+            self.eat(";")
+            cond = None if self.peek() == ";" else self.assign()
+            self.eat(";")
+            step = None if self.peek() == ")" else self.assign()
+            self.eat(")")
+            return ("for", init, cond, step, self.stmt())
+        if t == "while":
+            self.eat()
+            self.eat("(")
+            c = self.assign()
+            self.eat(")")
+            return ("while", c, self.stmt())
+        if t == "if":
+            self.eat()
+            self.eat("(")
+            c = self.assign()
+            self.eat(")")
+            a = self.stmt()
+            b = None
+            if self.peek() == "else":
+                self.eat()
+                b = self.stmt()
+            return ("if", c, a, b)
+        if t == "return":
+            self.eat()
+            self.eat(";")
+            return ("return",)
+        if t == "const" or (t in TYPES and (re.match(r"[A-Za-z_]", self.peek(1) or "") or self.peek(1) == "*")):
+            return self.decl()
+        e = self.assign()
+        self.eat(";")
+        return ("expr", e)
+
+    def decl(self):
+        if self.peek() == "const":
+            self.eat()
+        ty = self.eat()
+        if ty not in TYPES:
+            raise Untranslatable(f"unknown type {ty!r}")
+        items = []
+        while True:
+            ptr = False
+            if self.peek() == "*":
+                self.eat()
+                ptr = True
+            name = self.eat()
+            if not re.match(r"[A-Za-z_]\w*$", name):
+                raise Untranslatable(f"declarator {name!r}")
+            n = None
+            if self.peek() == "[":
+                self.eat()
+                n = int(self.eat(), 0)
+                self.eat("]")
+            init = None
+            if self.peek() == "=":
+                self.eat()
+                init = self.assign()
+            items.append(("decl", TYPES[ty], ptr, name, n, init))
+            if self.peek() == ",":
+                self.eat()
+                continue
+            break
+        self.eat(";")
+        return items[0] if len(items) == 1 else ("block", items)
+
+    # -- expressions
     def assign(self):
         l = self.cond()
-        if self.peek() in ("=", "+="):
+        if self.peek() in ASGOPS:
             op = self.eat()
             r = self.assign()
             return ("asg", op, l, r)
         return l
 
     def cond(self):
-        c = self.bor()
+        c = self.lor()
         if self.peek() == "?":
             self.eat()
             a = self.assign()
@@ -95,6 +199,12 @@ class Parser:
             l = ("bin", o, l, sub())
         return l
 
+    def lor(self):
+        return self._left(self.land, ("||",))
+
+    def land(self):
+        return self._left(self.bor, ("&&",))
+
     def bor(self):
         return self._left(self.bxor, ("|",))
 
@@ -102,18 +212,69 @@ class Parser:
         return self._left(self.band, ("^",))
 
     def band(self):
-        return self._left(self.shift, ("&",))
+        return self._left(self.equal, ("&",))
+
+    def equal(self):
+        return self._left(self.rel, ("==", "!="))
+
+    def rel(self):
+        return self._left(self.shift, ("<", ">", "<=", ">="))
 
     def shift(self):
         return self._left(self.add, (">>", "<<"))
 
     def add(self):
-        return self._left(self.postfix, ("+", "-"))
+        return self._left(self.mul, ("+", "-"))
+
+    def mul(self):
+        return self._left(self.unary, ("*", "/", "%"))
+
+    def unary(self):
+        t = self.peek()
+        if t == "~":
+            self.eat()
+            return ("not", self.unary())
+        if t == "!":
+            self.eat()
+            return ("lnot", self.unary())
+        if t == "*":
+            self.eat()
+            return ("deref", self.unary())
+        if t == "(" and self.peek(1) in TYPES and self.peek(2) == ")":
+            self.eat()
+            ty = self.eat()
+            self.eat(")")
+            return ("cast", TYPES[ty], self.unary())
+        return self.postfix()
 
     def postfix(self):
+        n = self.primary()
+        while True:
+            t = self.peek()
+            if t == "[":
+                self.eat()
+                e = self.assign()
+                self.eat("]")
+                if n[0] == "var":
+                    n = ("idx", n[1], e)
+                elif n[0] == "mem":
+                    n = ("idx", n[1] + "->" + n[2], e)
+                else:
+                    raise Untranslatable("indexing of something that is not a named array")
+            elif t == "->":
+                self.eat()
+                f = self.eat()
+                if n[0] != "var":
+                    raise Untranslatable("-> on something that is not a variable")
+                n = ("mem", n[1], f)
+            elif t in ("++", "--"):
+                self.eat()
+                n = ("post", t, n)
+            else:
+                return n
+
+    def primary(self):
         t = self.eat()
-        if t == "~":
-            return ("not", self.postfix())
         if t == "(":
             r = self.assign()
             self.eat(")")
@@ -122,6 +283,9 @@ class Parser:
             return ("num", int(t, 0))
         if not re.match(r"[A-Za-z_]", t):
             raise Untranslatable(f"unexpected token {t!r}")
+        while self.peek() == "::":
+            self.eat()
+            t = self.eat()
         if self.peek() == "(":
             self.eat()
             args = []
@@ -132,16 +296,19 @@ class Parser:
                     args.append(self.assign())
             self.eat(")")
             return ("call", t, args)
-        if self.peek() == "[":
-            self.eat()
-            e = self.assign()
-            self.eat("]")
-            return ("idx", t, e)
         return ("var", t)
 
 
 def parse(body):
     return Parser(tokenize(body)).stmts()
+
+
+def parse_function(body):
+    p = Parser(tokenize(body))
+    items = p.block_items()
+    if p.peek() is not None:
+        raise Untranslatable(f"trailing token {p.peek()!r} in function body")
+    return items
 
 
 # ---- analysis ------------------------------------------------------------------------------------
@@ -151,8 +318,12 @@ def subst(n, env):
         return env.get(n[1], n)
     if k == "num":
         return n
-    if k == "not":
-        return ("not", subst(n[1], env))
+    if k in ("not", "lnot", "deref"):
+        return (k, subst(n[1], env))
+    if k == "cast":
+        return (k, n[1], subst(n[2], env))
+    if k == "post":
+        return (k, n[1], subst(n[2], env))
     if k == "idx":
         if n[1] in env:
             raise Untranslatable(f"macro parameter {n[1]} used as array")
@@ -168,11 +339,23 @@ def subst(n, env):
     raise Untranslatable(str(n))
 
 
+def union(xs):
+    r, w, s, sw = set(), set(), set(), set()
+    for x in xs:
+        r, w, s, sw = r | x[0], w | x[1], s | x[2], sw | x[3]
+    return r, w, s, sw
+
+
 class Macros:
+    """the function-like macros of one build configuration; `arrays`/`scalars` are the fields of the record
+    `RS` (local variables of Transform that are assigned), set once the function has been analysed"""
+
     def __init__(self, defs):
         self.defs = defs            # name -> (params, body text)
         self.ast = {}
         self.kind = {}              # name -> pure | reader | proc
+        self.arrays = []
+        self.scalars = []
 
     def body(self, name):
         if name not in self.ast:
@@ -181,56 +364,68 @@ class Macros:
             self.ast[name] = parse(self.defs[name][1])
         return self.ast[name]
 
+    def lvalue(self, l):
+        while l[0] == "call" and self.classify(l[1]) == "reader":
+            l = self.inline(l)
+        return l
+
     def effects(self, n):
-        """(arrays read, arrays written, scalars) of a node, looking through macro calls"""
+        """(arrays read, arrays written, scalars read, scalars written) of a node, looking through macro calls"""
         k = n[0]
         if k == "num":
-            return set(), set(), set()
+            return set(), set(), set(), set()
         if k == "var":
-            return set(), set(), {n[1]}
-        if k == "not":
+            return set(), set(), {n[1]}, set()
+        if k in ("not", "lnot"):
             return self.effects(n[1])
+        if k == "cast":
+            return self.effects(n[2])
         if k == "idx":
-            r, w, s = self.effects(n[2])
-            return r | {n[1]}, w, s
+            r, w, s, sw = self.effects(n[2])
+            return r | {n[1]}, w, s, sw
         if k == "call":
-            r, w, s = set(), set(), set()
-            for a in n[2]:
-                x = self.effects(a)
-                r, w, s = r | x[0], w | x[1], s | x[2]
             params = self.defs.get(n[1], (None,))[0]
             if params is None:
                 raise Untranslatable(f"call of {n[1]} which is not a function-like macro")
             if len(params) != len(n[2]):
                 raise Untranslatable(f"macro {n[1]} called with {len(n[2])} arguments, defined with {len(params)}")
+            r, w, s, sw = union(self.effects(a) for a in n[2])
+            argmap = dict(zip(params, n[2]))
             for st in self.body(n[1]):
                 x = self.effects(st)
                 r, w, s = r | x[0], w | x[1], s | (x[2] - set(params))
-            return r, w, s
-        if k in ("bin", "cond", "asg"):
-            r, w, s = set(), set(), set()
-            for c in n[2:] if k != "cond" else n[1:]:
-                x = self.effects(c)
-                r, w, s = r | x[0], w | x[1], s | x[2]
-            if k == "asg":
-                l = n[2]
-                while l[0] == "call" and self.classify(l[1]) == "reader":
-                    l = self.inline(l)
-                if l[0] != "idx":
-                    raise Untranslatable("assignment to something that is not an array element")
+                for v in x[3]:
+                    if v in params:
+                        a = argmap[v]
+                        if a[0] != "var":
+                            raise Untranslatable(f"macro {n[1]} assigns its parameter {v}, but the argument is not a variable")
+                        sw = sw | {a[1]}
+                    else:
+                        sw = sw | {v}
+            return r, w, s, sw
+        if k == "bin":
+            return union([self.effects(n[2]), self.effects(n[3])])
+        if k == "cond":
+            return union(self.effects(c) for c in n[1:])
+        if k in ("asg", "post"):
+            l = self.lvalue(n[2])
+            r, w, s, sw = union([self.effects(l)] + ([self.effects(n[3])] if k == "asg" else []))
+            if l[0] == "idx":
                 w = w | {l[1]}
-                if n[1] == "=":
-                    pass
-            return r, w, s
-        raise Untranslatable(str(n))
+            elif l[0] == "var":
+                sw = sw | {l[1]}
+            else:
+                raise Untranslatable("assignment to something that is neither an array element nor a variable")
+            return r, w, s, sw
+        raise Untranslatable(f"unsupported expression {n[0]}")
+
+    def body_effects(self, name):
+        return union(self.effects(st) for st in self.body(name))
 
     def classify(self, name):
         if name not in self.kind:
-            r, w, s = set(), set(), set()
-            for st in self.body(name):
-                x = self.effects(st)
-                r, w = r | x[0], w | x[1]
-            self.kind[name] = "proc" if w else ("reader" if r else "pure")
+            r, w, s, sw = self.body_effects(name)
+            self.kind[name] = "proc" if (w or sw) else ("reader" if r else "pure")
         return self.kind[name]
 
     def inline(self, call):
@@ -240,19 +435,45 @@ class Macros:
             raise Untranslatable(f"macro {call[1]} used as an expression has several statements")
         return subst(b[0], dict(zip(params, call[2])))
 
+    def procinfo(self, name):
+        """how a statement macro becomes a Lean function: free immutable arrays, free scalars (parameters of the Lean
+        function), parameters it assigns (passed by value, new values returned: sound because the call sites are checked
+        to pass distinct plain variables for them), whether it yields a value"""
+        params = self.defs[name][0]
+        r, w, s, sw = self.body_effects(name)
+        assigned = [p for p in params if p in sw]
+        bad = (sw - set(params)) - set(self.scalars)
+        if bad:
+            raise Untranslatable(f"macro {name} assigns {sorted(bad)}, which is not a local scalar of the function")
+        badw = w - set(self.arrays)
+        if badw:
+            raise Untranslatable(f"macro {name} assigns array(s) {sorted(badw)}, which are not local arrays of the function")
+        arrays = sorted((r | w) - set(self.arrays))
+        scal = sorted(s - set(params) - set(self.scalars))
+        value = len(self.body(name)) == 1
+        if value and assigned:
+            raise Untranslatable(f"macro {name} yields a value and assigns its parameters")
+        return arrays, scal, assigned, value
+
 
 BINOP = {"+": "+", "-": "-", "&": "&&&", "|": "|||", "^": "^^^", ">>": ">>>", "<<": "<<<"}
 
 
 class Emitter:
-    """linearises statements into Lean `let` lines over a state record `RS`"""
+    """linearises expressions/assignments into Lean `let` lines over the state record `RS`"""
 
-    def __init__(self, M, mutable, counter=None, st="st0"):
-        self.M, self.mutable = M, mutable
+    def __init__(self, M, counter=None, st="st0", env=None, counters=(), hidden=()):
+        self.M = M
         self.lines = []
         self.counter = counter if counter is not None else [0]
         self.st = st
-        self.reads = []          # array reads not yet accounted for in `ok`: (array term, index term)
+        self.env = dict(env or {})      # macro parameters: name -> current Lean term (SSA)
+        self.counters = list(counters)  # loop counters in scope (Lean `Nat`)
+        self.hidden = set(hidden)       # loop counters of the function that are NOT in scope here
+        self.reads = []                 # array reads not yet accounted for in `ok`: (array term, index term)
+
+    def child(self):
+        return Emitter(self.M, self.counter, self.st, self.env, self.counters, self.hidden)
 
     def flush(self):
         """fold the pending reads into the `ok` flag of the current state"""
@@ -272,28 +493,46 @@ class Emitter:
         return f"{p}{self.counter[0]}"
 
     def check_disjoint(self, parts, what):
-        """C leaves the evaluation order of operands open: refuse when one operand writes an array
+        """C leaves the evaluation order of operands open: refuse when one operand writes something
         another operand reads or writes"""
         eff = [self.M.effects(p) for p in parts]
         for i, a in enumerate(eff):
             for j, b in enumerate(eff):
-                if i != j and a[1] & (b[0] | b[1]):
-                    raise Untranslatable(f"unsequenced side effect on {sorted(a[1] & (b[0] | b[1]))} in {what}")
+                if i != j and (a[1] & (b[0] | b[1]) or a[3] & (b[2] | b[3])):
+                    raise Untranslatable(f"unsequenced side effect on {sorted((a[1] & (b[0] | b[1])) | (a[3] & (b[2] | b[3])))} in {what}")
+
+    def var(self, name):
+        if name in self.env:
+            return self.env[name]
+        if name in self.counters:
+            return f"(UInt32.ofNat {name})"
+        if name in self.hidden:
+            raise Untranslatable(f"loop counter {name} is read outside its loop")
+        if name in self.M.scalars:
+            return f"{self.st}.{name}"
+        return name
+
+    def array(self, name):
+        return f"{self.st}.{name}" if name in self.M.arrays else name
 
     def expr(self, n):
         k = n[0]
         if k == "num":
             return str(n[1])
         if k == "var":
-            return n[1]
+            return self.var(n[1])
         if k == "not":
             return f"(~~~ {self.expr(n[1])})"
         if k == "idx":
             e = self.expr(n[2])
-            base = f"{self.st}.{n[1]}" if n[1] in self.mutable else n[1]
+            if n[2][0] == "num":
+                e = f"({e} : UInt32)"
+            base = self.array(n[1])
             self.reads.append((base, f"({e}).toNat"))
             return f"({base}.getD ({e}).toNat 0)"
         if k == "bin":
+            if n[1] not in BINOP:
+                raise Untranslatable(f"operator {n[1]} is not translated")
             self.check_disjoint([n[2], n[3]], f"operands of {n[1]}")
             l = self.expr(n[2])
             r = self.expr(n[3])
@@ -302,31 +541,56 @@ class Emitter:
             kind = self.M.classify(n[1])
             if kind == "reader":
                 return self.expr(self.M.inline(n))
-            for a in n[2]:
-                if self.M.effects(a)[1]:
-                    raise Untranslatable(f"argument of macro {n[1]} has side effects")
-            args = [self.expr(a) for a in n[2]]
             if kind == "pure":
-                return "(" + " ".join([n[1]] + args) + ")"
+                for a in n[2]:
+                    e = self.M.effects(a)
+                    if e[1] or e[3]:
+                        raise Untranslatable(f"argument of macro {n[1]} has side effects")
+                return "(" + " ".join([n[1]] + [self.expr(a) for a in n[2]]) + ")"
+            return self.call_proc(n)
+        if k == "asg":
+            return self.assign(n)
+        if k == "cond":
+            e = self.M.effects(n[1])
+            if e[1] or e[3]:
+                raise Untranslatable("condition with side effects")
+            c = self.expr(n[1])
+            ea, eb = self.M.effects(n[2]), self.M.effects(n[3])
+            if ea[3] or eb[3]:
+                raise Untranslatable("assignment to a scalar variable inside a conditional expression")
+            if not (ea[0] or ea[1] or eb[0] or eb[1]):
+                return f"(if {c} ≠ 0 then {self.expr(n[2])} else {self.expr(n[3])})"
+            blocks = []
+            for br in (n[2], n[3]):
+                e = self.child()
+                e.lines, e.reads = [], []
+                val = e.expr(br)
+                e.flush()
+                blocks.append("(" + "; ".join(e.lines + [f"({e.st}, {val})"]) + ")")
             r = self.fresh("r")
-            frees = proc_frees(self.M, n[1], self.mutable)
-            self.lines.append(f"let {r} := {n[1]} {' '.join(frees + args)} {self.st}".replace("  ", " "))
+            self.lines.append(f"let {r} : RS × UInt32 := if {c} ≠ 0 then {blocks[0]} else {blocks[1]}")
             self.st = self.fresh("st")
             self.lines.append(f"let {self.st} := {r}.1")
             return f"{r}.2"
-        if k == "asg":
-            l = n[2]
-            while l[0] == "call" and self.M.classify(l[1]) == "reader":
-                l = self.M.inline(l)
-            if l[0] != "idx" or l[1] not in self.mutable:
-                raise Untranslatable("assignment target is not an element of a local array")
+        raise Untranslatable(f"unsupported expression {k}")
+
+    def assign(self, n):
+        op = n[1]
+        if op not in ("=", "+="):
+            raise Untranslatable(f"assignment operator {op} is not translated")
+        l = self.M.lvalue(n[2])
+        if l[0] == "idx":
+            if l[1] not in self.M.arrays:
+                raise Untranslatable(f"assignment target {l[1]}[..] is not an element of a local array")
             self.check_disjoint([l[2], n[3]], "assignment")
             if self.M.effects(n[3])[1] & {l[1]}:
                 raise Untranslatable(f"right-hand side modifies the assigned array {l[1]}")
             rhs = self.expr(n[3])
             idx = self.expr(l[2])
+            if l[2][0] == "num":
+                idx = f"({idx} : UInt32)"
             v = self.fresh("v")
-            if n[1] == "+=":
+            if op == "+=":
                 self.lines.append(f"let {v} := ({self.st}.{l[1]}.getD ({idx}).toNat 0) + {rhs}")
                 self.reads.append((f"{self.st}.{l[1]}", f"({idx}).toNat"))
             else:
@@ -336,72 +600,134 @@ class Emitter:
             self.lines.append(f"let {new} : RS := {{ {self.st} with {l[1]} := wr {self.st}.{l[1]} ({idx}).toNat {v} }}")
             self.st = new
             return v
-        if k == "cond":
-            if self.M.effects(n[1])[1]:
-                raise Untranslatable("condition with side effects")
-            c = self.expr(n[1])
-            ea, eb = self.M.effects(n[2]), self.M.effects(n[3])
-            if not (ea[0] or ea[1] or eb[0] or eb[1]):
-                return f"(if {c} ≠ 0 then {self.expr(n[2])} else {self.expr(n[3])})"
-            blocks = []
-            for br in (n[2], n[3]):
-                e = Emitter(self.M, self.mutable, self.counter, self.st)
-                val = e.expr(br)
-                e.flush()
-                blocks.append("(" + "; ".join(e.lines + [f"({e.st}, {val})"]) + ")")
-            r = self.fresh("r")
-            self.lines.append(f"let {r} : RS × UInt32 := if {c} ≠ 0 then {blocks[0]} else {blocks[1]}")
-            self.st = self.fresh("st")
-            self.lines.append(f"let {self.st} := {r}.1")
+        if l[0] == "var":
+            name = l[1]
+            e = self.M.effects(n[3])
+            if e[3]:
+                raise Untranslatable("nested assignment to a scalar variable")
+            rhs = self.expr(n[3])
+            cur = self.var(name)
+            v = self.fresh(name + "_")
+            self.lines.append(f"let {v} := {cur} + {rhs}" if op == "+=" else f"let {v} := {rhs}")
+            self.flush()
+            self.store(name, v)
+            return v
+        raise Untranslatable("assignment target is neither an array element nor a variable")
+
+    def store(self, name, v):
+        if name in self.env:
+            self.env[name] = v
+        elif name in self.M.scalars:
+            new = self.fresh("st")
+            self.lines.append(f"let {new} : RS := {{ {self.st} with {name} := {v} }}")
+            self.st = new
+        else:
+            raise Untranslatable(f"assignment to {name}, which is neither a macro parameter nor a local scalar of the function")
+
+    def call_proc(self, n):
+        name = n[1]
+        params = self.M.defs[name][0]
+        arrays, scal, assigned, value = self.M.procinfo(name)
+        for a in n[2]:
+            e = self.M.effects(a)
+            if e[1] or e[3]:
+                raise Untranslatable(f"argument of macro {name} has side effects")
+        targets = []
+        for p, a in zip(params, n[2]):
+            if p in assigned:
+                if a[0] != "var" or not (a[1] in self.env or a[1] in self.M.scalars):
+                    raise Untranslatable(f"macro {name} assigns its parameter {p}; the argument must be a plain local variable")
+                targets.append(a[1])
+        # textual substitution = call by value + copy back only if the assigned variables are pairwise distinct, occur in
+        # no other argument and are not free in the macro body
+        for t in targets:
+            occ = sum(1 for a in n[2] if t in self.M.effects(a)[2])
+            if occ != 1 or t in scal:
+                raise Untranslatable(f"macro {name}: the assigned argument {t} is aliased by another argument or a free variable")
+        args = [self.expr(a) for a in n[2]]
+        frees = [self.array(a) for a in arrays] + [self.var(s) for s in scal]
+        self.flush()
+        if not value and not assigned:
+            new = self.fresh("st")
+            self.lines.append(f"let {new} := {' '.join([name] + frees + args)} {self.st}")
+            self.st = new
+            return None
+        r = self.fresh("r")
+        self.lines.append(f"let {r} := {' '.join([name] + frees + args)} {self.st}")
+        self.st = self.fresh("st")
+        self.lines.append(f"let {self.st} := {r}.1")
+        if value:
             return f"{r}.2"
-        raise Untranslatable(str(n))
+        for i, t in enumerate(targets):
+            proj = f"{r}.2" + ("" if len(targets) == 1 else ".2" * i + (".1" if i < len(targets) - 1 else ""))
+            v = self.fresh(t + "_")
+            self.lines.append(f"let {v} := {proj}")
+            self.store(t, v)
+        return None
 
 
-def proc_frees(M, name, mutable):
-    """free identifiers of a statement macro: immutable arrays first, then scalars (sorted)"""
-    params = M.defs[name][0]
-    r, w, s = set(), set(), set()
+def proc_def(M, name):
+    params, _ = M.defs[name]
+    arrays, scal, assigned, value = M.procinfo(name)
+    e = Emitter(M, env={p: p for p in params})
+    val = None
     for st in M.body(name):
-        x = M.effects(st)
-        r, w, s = r | x[0], w | x[1], s | x[2]
-    arrays = sorted((r | w) - set(mutable))
-    scal = sorted(s - set(params))
-    return arrays + scal
+        val = e.expr(st)
+        e.flush()
+    sig = f"def {name}"
+    if arrays:
+        sig += f" ({' '.join(arrays)} : List UInt32)"
+    if scal:
+        sig += f" ({' '.join(scal)} : UInt32)"
+    if params:
+        sig += f" ({' '.join(params)} : UInt32)"
+    ret = "RS" + (" × UInt32" if value else "") + " × UInt32" * len(assigned)
+    sig += f" (st0 : RS) : {ret} :=\n"
+    body = "".join(f"  {l}\n" for l in e.lines)
+    if value:
+        body += f"  ({e.st}, {val})\n"
+    elif assigned:
+        body += "  (" + ", ".join([e.st] + [e.env[p] for p in assigned]) + ")\n"
+    else:
+        body += f"  {e.st}\n"
+    return sig + body
 
 
-def pure_closure(M, roots):
-    """the side-effect-free macros reachable from `roots`, callees first"""
-    order = []
+def calls_in(n, acc):
+    if not isinstance(n, tuple):
+        return
+    if n[0] == "call":
+        acc.append(n[1])
+        for a in n[2]:
+            calls_in(a, acc)
+        return
+    for c in n[1:]:
+        if isinstance(c, tuple):
+            calls_in(c, acc)
+        elif isinstance(c, list):
+            for x in c:
+                calls_in(x, acc)
 
-    def calls(n, acc):
-        if n[0] == "call":
-            acc.append(n[1])
-            for a in n[2]:
-                calls(a, acc)
-        elif n[0] in ("bin", "asg"):
-            calls(n[2], acc)
-            calls(n[3], acc)
-        elif n[0] == "cond":
-            for c in n[1:]:
-                calls(c, acc)
-        elif n[0] == "not":
-            calls(n[1], acc)
-        elif n[0] == "idx":
-            calls(n[2], acc)
+
+def macro_closure(M, roots, want):
+    """the macros of kind `want` reachable from `roots` (through macros of every kind), callees first"""
+    order, seen = [], set()
 
     def visit(name, stack):
-        if name in order:
+        if name in seen:
             return
         if name in stack:
             raise Untranslatable(f"recursive macro {name}")
-        if M.classify(name) != "pure":
+        if name not in M.defs or M.defs[name][0] is None:
             return
         acc = []
         for st in M.body(name):
-            calls(st, acc)
+            calls_in(st, acc)
         for c in acc:
             visit(c, stack + [name])
-        order.append(name)
+        seen.add(name)
+        if M.classify(name) == want:
+            order.append(name)
 
     for r in roots:
         visit(r, [])
@@ -413,61 +739,207 @@ def pure_def(M, name):
     b = M.body(name)
     if len(b) != 1:
         raise Untranslatable(f"macro {name} has several statements")
-    e = Emitter(M, [])
+    e = Emitter(M, env={p: p for p in params})
     # macro arguments are parenthesised in the body: `(x)` parses to the variable itself
     t = e.expr(b[0])
     return f"def {name} ({' '.join(params)} : UInt32) : UInt32 :=\n  {t}\n"
 
 
-def proc_def(M, name, mutable, returns_value):
-    params, _ = M.defs[name]
-    frees = proc_frees(M, name, mutable)
-    arrays = [f for f in frees if f not in proc_scalars(M, name)]
-    scal = [f for f in frees if f in proc_scalars(M, name)]
-    e = Emitter(M, mutable)
-    val = None
-    for st in M.body(name):
-        val = e.expr(st)
+# ---- function bodies ---------------------------------------------------------------------------------
+def flat_decls(items, acc):
+    for s in items:
+        if s[0] == "decl":
+            acc.append(s)
+        elif s[0] == "block":
+            flat_decls(s[1], acc)
+        elif s[0] == "for":
+            flat_decls([s[4]], acc)
+        elif s[0] == "while":
+            flat_decls([s[2]], acc)
+        elif s[0] == "if":
+            flat_decls([s[2]] + ([s[3]] if s[3] else []), acc)
+    return acc
+
+
+def for_counters(items, acc):
+    for s in items:
+        if s[0] == "block":
+            for_counters(s[1], acc)
+        elif s[0] == "for":
+            if s[1] and s[1][0] == "asg" and s[1][2][0] == "var":
+                acc.add(s[1][2][1])
+            for_counters([s[4]], acc)
+        elif s[0] == "while":
+            for_counters([s[2]], acc)
+        elif s[0] == "if":
+            for_counters([s[2]] + ([s[3]] if s[3] else []), acc)
+    return acc
+
+
+def stmt_effects(M, s):
+    k = s[0]
+    if k == "block":
+        return union(stmt_effects(M, x) for x in s[1])
+    if k == "decl":
+        return M.effects(("asg", "=", ("var", s[3]), s[5])) if s[5] is not None else (set(), set(), set(), set())
+    if k == "expr":
+        return M.effects(s[1])
+    if k == "for":
+        return union([M.effects(x) for x in s[1:4] if x is not None] + [stmt_effects(M, s[4])])
+    raise Untranslatable(f"statement `{k}` is not translated")
+
+
+class FuncGen:
+    """translates the body of one function into Lean definitions over `RS`"""
+
+    def __init__(self, M, fname, immut, counters):
+        self.M, self.fname, self.immut = M, fname, immut
+        self.all_counters = set(counters)
+        self.defs = []
+        self.nloop = 0
+
+    def stmt(self, s, e):
+        k = s[0]
+        if k == "block":
+            for x in s[1]:
+                self.stmt(x, e)
+        elif k == "decl":
+            if s[5] is not None:
+                e.expr(("asg", "=", ("var", s[3]), s[5]))
+                e.flush()
+        elif k == "expr":
+            e.expr(s[1])
+            e.flush()
+        elif k == "for":
+            self.for_(s, e)
+        else:
+            raise Untranslatable(f"statement `{k}` is not translated")
+
+    def for_(self, s, e):
+        init, cond, step, body = s[1:]
+        ok = (init and init[0] == "asg" and init[1] == "=" and init[2][0] == "var" and init[3][0] == "num"
+              and cond and cond[0] == "bin" and cond[1] == "<" and cond[2] == init[2] and cond[3][0] == "num"
+              and step and ((step[0] == "post" and step[1] == "++" and step[2] == init[2])
+                            or (step[0] == "asg" and step[1] == "+=" and step[2] == init[2] and step[3][0] == "num" and step[3][1] > 0)))
+        if not ok:
+            raise Untranslatable(f"{self.fname}: only `for (v = const; v < const; v++ | v += const)` loops are translated")
+        v, start, bound = init[2][1], init[3][1], cond[3][1]
+        inc = 1 if step[0] == "post" else step[3][1]
+        if v not in self.all_counters or v in e.counters or bound + inc >= 2 ** 32:
+            raise Untranslatable(f"{self.fname}: loop counter {v}")
+        if v in stmt_effects(self.M, body)[3]:
+            raise Untranslatable(f"{self.fname}: the loop body assigns the loop counter {v}")
+        self.nloop += 1
+        name = f"{self.fname}_for{self.nloop}"
+        outer = list(e.counters)
+        be = Emitter(self.M, counters=outer + [v], hidden=self.all_counters - set(outer) - {v})
+        self.stmt(body, be)
+        be.flush()
+        imm = "".join(f" ({a} : List UInt32)" for a in self.immut)
+        cnt = "".join(f" ({c} : Nat)" for c in outer + [v])
+        args = " ".join(self.immut + outer)
+        args = (" " + args) if args else ""
+        self.defs.append(f"/-- body of the loop `for ({v} = {start}; {v} < {bound}; {v} += {inc})` of `{self.fname}` -/\n"
+                         f"def {name}_body{imm}{cnt} (st0 : RS) : RS :=\n" + "".join(f"  {l}\n" for l in be.lines) + f"  {be.st}\n\n"
+                         f"/-- `for ({v} = {start}; {v} < {bound}; {v} += {inc}) …` of `{self.fname}`, entered with the counter at `{v}` -/\n"
+                         f"def {name}{imm}{cnt} (st0 : RS) : RS :=\n"
+                         f"  if {v} < {bound} then {name}{args} ({v} + {inc}) ({name}_body{args} {v} st0) else st0\n"
+                         f"termination_by {bound} - {v}\n\n")
+        e.flush()
+        new = e.fresh("st")
+        e.lines.append(f"let {new} := {name}{args} {start} {e.st}")
+        e.st = new
+
+
+def strip_comments(text):
+    text = re.sub(r"/\*.*?\*/", " ", text, flags=re.S)
+    return re.sub(r"//[^\n]*", " ", text)
+
+
+def function_text(code, header_rx, what):
+    """(parameter list text, body text) of the function whose header matches `header_rx`"""
+    m = re.search(header_rx, code)
+    if not m:
+        raise Untranslatable(f"{what} not found")
+    i = code.index("{", m.end() - 1)
+    depth, j = 0, i
+    while j < len(code):
+        if code[j] == "{":
+            depth += 1
+        elif code[j] == "}":
+            depth -= 1
+            if depth == 0:
+                return m.group(1), code[i + 1:j]
+        j += 1
+    raise Untranslatable(f"{what}: unbalanced braces")
+
+
+def transform_function(M, code):
+    """analyse and translate `Sha256::Private::Transform`; returns (RS arrays, RS scalars, list of Lean defs)"""
+    params, body = function_text(code, r"static\s+void\s+Transform\s*\(([^)]*)\)\s*\{", "Sha256::Private::Transform")
+    ps = [re.sub(r"\s+", " ", p.strip()) for p in params.split(",")]
+    ptr, immut = [], []
+    for p in ps:
+        m = re.match(r"(const )?UInt32 ?\* ?(\w+)$", p)
+        if not m:
+            raise Untranslatable(f"Transform: parameter `{p}` is not a UInt32 pointer")
+        (immut if m.group(1) else ptr).append(m.group(2))
+    items = parse_function(body)
+    decls = flat_decls(items, [])
+    counters = for_counters(items, set())
+    arrays, scalars = [], []
+    for d in decls:
+        _, ty, isptr, name, n, init = d
+        if ty != "UInt32" or isptr:
+            raise Untranslatable(f"Transform: local `{name}` is not a 32-bit unsigned variable")
+        if n is not None:
+            arrays.append((name, n))
+        elif name not in counters:
+            scalars.append(name)
+    M.arrays = sorted([a for a, _ in arrays] + ptr)
+    M.scalars = scalars
+    r, w, s, sw = union(stmt_effects(M, x) for x in items)
+    for a in w:
+        if a not in M.arrays:
+            raise Untranslatable(f"Transform assigns `{a}`, which is neither a local array nor a non-const pointer parameter")
+    for a in sw - counters:
+        if a not in M.scalars:
+            raise Untranslatable(f"Transform assigns `{a}`, which is not a local scalar")
+    fg = FuncGen(M, "Transform", immut, counters)
+    e = Emitter(M, hidden=counters)
+    for x in items:
+        fg.stmt(x, e)
     e.flush()
-    sig = f"def {name}"
-    if arrays:
-        sig += f" ({' '.join(arrays)} : List UInt32)"
-    if scal:
-        sig += f" ({' '.join(scal)} : UInt32)"
-    if params:
-        sig += f" ({' '.join(params)} : UInt32)"
-    sig += " (st0 : RS) : " + ("RS × UInt32" if returns_value else "RS") + " :=\n"
-    body = "".join(f"  {l}\n" for l in e.lines)
-    body += f"  ({e.st}, {val})\n" if returns_value else f"  {e.st}\n"
-    return sig + body
-
-
-def proc_scalars(M, name):
-    params = M.defs[name][0]
-    s = set()
-    for st in M.body(name):
-        s |= M.effects(st)[2]
-    return s - set(params)
+    imm = "".join(f" ({a} : List UInt32)" for a in immut)
+    text = re.sub(r"\s+", " ", body).strip()
+    fg.defs.append(f"/-- `Sha256::Private::Transform({params.strip()})`: `{text}`.\n"
+                   f"The local variables and the array behind the non-const pointer are the fields of `RS`; the caller supplies\n"
+                   f"`st0.{ptr[0] if ptr else 'state'}` and arbitrary values for the locals (they are uninitialised in C++). -/\n"
+                   f"def Transform{imm} (st0 : RS) : RS :=\n" + "".join(f"  {l}\n" for l in e.lines) + f"  {e.st}\n\n")
+    roots = []
+    for x in items:
+        calls_in(x, roots)
+    return dict(arrays), ptr, immut, roots, fg.defs
 
 
 # ---- extraction ----------------------------------------------------------------------------------
 PURE = ["rotrFixed", "S0", "S1", "s0", "s1", "Ch", "Maj"]
-PROCS = [("blk0", True), ("blk2", True), ("R", False)]
 
 
-def preprocess(repo):
+def preprocess(repo, defines=(), directives_only=False):
     src = Path(repo) / "src" / "Crypto" / "Sha256.cpp"
     if not src.exists():
         raise Untranslatable(f"{src} does not exist")
-    p = subprocess.run([os.environ.get("CXX", "g++"), "-E", "-dD", f"-I{repo}/include", str(src)],
-                       stdout=subprocess.PIPE, stderr=subprocess.PIPE, text=True)
+    cmd = [os.environ.get("CXX", "g++"), "-E", "-dD"] + (["-fdirectives-only"] if directives_only else []) + \
+          [f"-D{d}" for d in defines] + [f"-I{repo}/include", str(src)]
+    p = subprocess.run(cmd, stdout=subprocess.PIPE, stderr=subprocess.PIPE, text=True)
     if p.returncode != 0:
         raise Untranslatable("preprocessor failed: " + p.stderr[-300:])
     return p.stdout
 
 
 def macro_table(pp):
-    defs, undef = {}, set()
+    defs = {}
     for line in pp.splitlines():
         m = re.match(r"#define\s+([A-Za-z_]\w*)(\(([^)]*)\))?\s*(.*)$", line)
         if m:
@@ -481,14 +953,17 @@ def macro_table(pp):
     return defs
 
 
-def generate(repo):
-    pp = preprocess(repo)
+def generate(repo, defines=(), ns="Sha256", suffix=""):
+    pp = preprocess(repo, defines)
     defs = macro_table(pp)
     code = "\n".join(l for l in pp.splitlines() if not l.startswith("#"))
-    # _SHA256_UNROLL only unrolls the `i` loop over the same macro R(i); _SHA256_UNROLL2 replaces the
-    # array T by eight scalar variables and R by a nine-parameter macro, which is not modelled
-    if "_SHA256_UNROLL2" in defs:
-        raise Untranslatable("_SHA256_UNROLL2 is defined: the scalar-register variant of Transform is not modelled")
+    # the same translation unit with conditionals resolved and macro calls left in place; continuation lines of
+    # #define directives are dropped with their directive
+    raw = preprocess(repo, defines, directives_only=True)
+    raw = re.sub(r"^[ \t]*#[^\n]*(\\\n[^\n]*)*", "", strip_comments(raw), flags=re.M)
+    unroll2 = UNROLL2 in defs
+    if unroll2 != (UNROLL2 in defines):
+        raise Untranslatable(f"{UNROLL2} is defined by the sources themselves: the rolled configuration the model is proved against does not exist any more")
     m = re.search(r"Sha256::Private::K\s*\[\s*64\s*\]\s*=\s*\{(.*?)\}\s*;", code, re.S)
     if not m:
         raise Untranslatable("table Sha256::Private::K[64] not found")
@@ -526,26 +1001,28 @@ def generate(repo):
             raise Untranslatable(f"macro {name} not found")
         if M.classify(name) != "pure":
             raise Untranslatable(f"macro {name} is expected to be side-effect free and array free")
-    for name in "abcdefgh":
-        if name not in defs or M.classify(name) != "reader":
-            raise Untranslatable(f"register macro {name}(i) not found / not an array element")
-    for name, _ in PROCS:
-        if name not in defs:
-            raise Untranslatable(f"macro {name} not found")
-        if M.classify(name) != "proc":
-            raise Untranslatable(f"macro {name} is expected to assign array elements")
-    if len(defs["R"][0]) != 1:
-        raise Untranslatable("R has an unexpected number of parameters")
-    mutable = set()
-    for st in M.body("R"):
-        mutable |= M.effects(st)[1]
-    mutable = sorted(mutable)
-    if mutable != ["T", "W"]:
-        raise Untranslatable(f"R assigns arrays {mutable}, expected T and W")
+    arrays, ptr, immut, roots, fdefs = transform_function(M, raw)
+    want = {"W": 16, "T": 8} if not unroll2 else {"W": 16}
+    if arrays != want or ptr != ["state"] or immut != ["data"]:
+        raise Untranslatable(f"Transform: local arrays {arrays}, pointers {ptr}/{immut}; expected {want}, state, data")
+    if unroll2 and M.scalars != list("abcdefgh"):
+        raise Untranslatable(f"Transform ({UNROLL2}): local scalars {M.scalars}, expected a..h")
+    if not unroll2 and M.scalars:
+        raise Untranslatable(f"Transform: unexpected local scalars {M.scalars}")
+    procs = macro_closure(M, roots, "proc")
+    for need in ("blk0", "blk2", "R"):
+        if need not in procs:
+            raise Untranslatable(f"Transform does not use the statement macro {need}")
+    if not unroll2:
+        for name in "abcdefgh":
+            if name not in defs or M.classify(name) != "reader":
+                raise Untranslatable(f"register macro {name}(i) not found / not an array element")
+    pures = macro_closure(M, PURE + roots, "pure")
 
     hx = lambda v: f"0x{v:08x}"
-    out = ["-- GENERATED by tools/gen_sha.py from src/Crypto/Sha256.cpp (g++ -E -dD).  Do not edit.\n",
-                      "namespace Nstd.Generated.Sha256\n\n",
+    cfg = "the sources as they are" if not defines else "the sources compiled with " + " ".join("-D" + d for d in defines)
+    out = [f"-- GENERATED by tools/gen_sha.py from src/Crypto/Sha256.cpp (g++ -E -dD [-fdirectives-only]), configuration: {cfg}.  Do not edit.\n",
+           f"set_option linter.unusedVariables false\nnamespace Nstd.Generated.{ns}\n\n",
            "/-- `Sha256::Private::K[64]` -/\n",
            "def K : List UInt32 := [\n  " + ",\n  ".join(", ".join(hx(v) for v in K[i:i + 8]) for i in range(0, 64, 8)) + "]\n\n",
            "/-- the state written by `Sha256::reset()` -/\n",
@@ -554,48 +1031,58 @@ def generate(repo):
            f"/-- `Sha256::blockSize`, `Sha256::digestSize` (Sha256.hpp) -/\ndef blockSize : Nat := {hdr['blockSize']}\ndef digestSize : Nat := {hdr['digestSize']}\n\n",
            f"/-- `oKeyPad[i] = hashKey[i] ^ …`, `iKeyPad[i] = hashKey[i] ^ …` in `Sha256::hmac` -/\n"
            f"def hmacOpad : UInt8 := 0x{hdr['hmacOpad']:02x}\ndef hmacIpad : UInt8 := 0x{hdr['hmacIpad']:02x}\n\n"]
-    for name in pure_closure(M, PURE):
+    for name in pures:
         out.append(f"/-- `#define {name}({','.join(defs[name][0])}) {defs[name][1]}` -/\n")
         out.append(pure_def(M, name) + "\n")
     out.append("/-- unfolds every translated side-effect-free macro (used by the bit-level proofs, which must not\n"
                "depend on which helper macros the source uses) -/\n"
-               "macro \"sha_macro_unfold\" : tactic =>\n  `(tactic| simp only [" +
-               ", ".join(f"Nstd.Generated.Sha256.{n}" for n in pure_closure(M, PURE)) + "])\n\n")
+               f"macro \"sha_macro_unfold{suffix}\" : tactic =>\n  `(tactic| simp only [" +
+               ", ".join(f"Nstd.Generated.{ns}.{n}" for n in pures) + "])\n\n")
     out.append("/-- checked array write: an out-of-range index destroys the array, so that no theorem about the\n"
                "results can hold by accident of a silently dropped write -/\n"
                "def wr {α : Type} (a : List α) (i : Nat) (v : α) : List α := if i < a.length then a.set i v else []\n\n"
-               "/-- `i` is a valid index of `a`; every array read of the translated macros is recorded with it in the\n"
+               "/-- `i` is a valid index of `a`; every array read of the translated code is recorded with it in the\n"
                "`ok` flag of the state (`ok` = no array read so far was out of range) -/\n"
                "def inb {α : Type} (a : List α) (i : Nat) : Bool := decide (i < a.length)\n\n")
-    out.append("/-- the local arrays assigned by the statement macros -/\nstructure RS where\n" +
-               "".join(f"  {a} : List UInt32\n" for a in mutable) + "  ok : Bool\n\n")
-    for name, rv in PROCS:
+    out.append("/-- the variables `Transform` assigns: its local arrays " + ", ".join(f"`{a}[{n}]`" for a, n in sorted(arrays.items())) +
+               ", the array behind its non-const pointer parameter `state`" +
+               (", its local scalars " + " ".join(M.scalars) if M.scalars else "") + "; `ok` = no array read so far was out of range -/\n"
+               "structure RS where\n" +
+               "".join(f"  {a} : List UInt32\n" for a in M.arrays) + "".join(f"  {a} : UInt32\n" for a in M.scalars) + "  ok : Bool\n\n")
+    for name in procs:
         out.append(f"/-- `#define {name}({','.join(defs[name][0])}) {defs[name][1]}`" +
-                   ("  (register macros: " + "; ".join(f"{r}(i) = {defs[r][1]}" for r in "abcdefgh") + ")" if name == "R" else "") + " -/\n")
-        out.append(proc_def(M, name, mutable, rv) + "\n")
-    out.append("end Nstd.Generated.Sha256\n")
+                   ("  (register macros: " + "; ".join(f"{r}(i) = {defs[r][1]}" for r in "abcdefgh") + ")" if name == "R" and not unroll2 else "") + " -/\n")
+        out.append(proc_def(M, name) + "\n")
+    out += fdefs
+    out.append(f"end Nstd.Generated.{ns}\n")
     return "".join(out)
 
 
+def write_if_changed(path, text):
+    path.parent.mkdir(parents=True, exist_ok=True)
+    if not path.exists() or path.read_text() != text:
+        path.write_text(text)
+
+
 def run(repo=None):
-    """returns (ok, message); writes the generated file only when its content changed"""
+    """returns (ok, message); writes the generated files only when their content changed"""
     if repo is None:
         import common
         repo = common.REPO
     try:
         text = generate(repo)
+        text2 = generate(repo, defines=(UNROLL2,), ns="Sha256U2", suffix="_u2")
     except Untranslatable as ex:
         return False, f"gen_sha: {ex}"
-    OUT.parent.mkdir(parents=True, exist_ok=True)
-    if not OUT.exists() or OUT.read_text() != text:
-        OUT.write_text(text)
-    return True, hashlib.sha1(text.encode()).hexdigest()[:12]
+    write_if_changed(OUT, text)
+    write_if_changed(OUT_U2, text2)
+    return True, hashlib.sha1((text + text2).encode()).hexdigest()[:12]
 
 
 def gen(ctx):
     ok, msg = run()
     if ok:
-        ctx.notes.append(f"translator: Nstd/Generated/Sha256Tables.lean regenerated from the current sources (sha1 {msg})")
+        ctx.notes.append(f"translator: Nstd/Generated/Sha256Tables.lean and Sha256U2.lean regenerated from the current sources (sha1 {msg})")
     return ok, msg
 
 
